@@ -5,6 +5,8 @@ the VR -> {16-bit, 32-bit length form} tables (all 34 VRs x 5 sites) against ref
 layout of every header form (offsets, widths, buffer sizes, reported byte counts), endianness purity of
 each codec, the range guard on the 16-bit length cast, and the VR two-letter code bijection.
 """
+import re
+
 from . import facts, hirq as H, mirq as M, common as C, guards as G
 
 LEVEL_TEXT = ("Exhaustive over the finite tables: every VR variant x every header site, every layout slot of every "
@@ -100,6 +102,13 @@ def endianness_purity(chk, fx):
                         n_calls += 1
                         chk.expect(f"<byteorder::{endian} as" in c, "endianness-purity", f["path"], c.split("::")[-1] + f"@{t['l']}",
                                    endian, c, loc=f"{f['loc']['f']}:{t['l']}")
+                    # integer <-> byte-array conversions of std carry a byte order too: only the codec's own is allowed
+                    mconv = re.search(r"core::num::<impl \w+>::(to|from)_(le|be|ne)_bytes$", c)
+                    if mconv:
+                        n_calls += 1
+                        want_conv = "le" if endian == "LittleEndian" else "be"
+                        chk.expect(mconv.group(2) == want_conv, "endianness-purity", f["path"], c.split("::")[-1] + f"@{t['l']}", f"{mconv.group(1)}_{want_conv}_bytes", c,
+                                   loc=f"{f['loc']['f']}:{t['l']}")
             # the basic codec field
             adt = fx.adt(ty.replace("<D>", ""))
             basic = [fl for v in adt["variants"] for fl in v["fields"] if fl["name"] == "basic"]
